@@ -79,6 +79,7 @@ template <class A> static Verdict run(const Fields &f, int *allocCalls, int *obj
         int rc = A::DissectQueryMallocExMm(&ql, &cnt, q.data(), q.data() + q.size(), URI_TRUE, URI_BR_DONT_TOUCH, m);
         VF_REQUIRE(rc == 0 || (fault > 0 && rc == URI_ERROR_MALLOC), "%s: dissect rc=%d", A::name(), rc);
         if (rc != 0) ql = nullptr;  // documented: nothing to release after a failure
+        if (ql) stats().hit("query_steps_with_items"); else stats().hit(rc ? "query_steps_dissect_failed" : "query_steps_without_items");
         if (ql) {
           Ch *s = nullptr;
           rc = A::ComposeQueryMallocExMm(&s, ql, URI_TRUE, URI_TRUE, m);
